@@ -26,7 +26,8 @@ META = {
         ' Round 7: emptiness is tested on the value that is used (no strip after the test); is_error / is_undef tables; __eq__ answers True only to a TRS; the string is lower-cased before the case-insensitive unpacker captures its parts.'
         " Round 8: a default direction is lower-cased before it is appended; str() is not applied before the '' / None test."
         " Round 9: no comparison across components (`group('rge') == _UNDEF_TWP`); validation is not an elif of the building branch; public functions never return the cached dict."
-        ' Round 11: derived placeholders are rebuilt from parts of their own kind (shared with C15); witnesses are lower-cased as trs_to_dict does.'),
+        ' Round 11: derived placeholders are rebuilt from parts of their own kind (shared with C15); witnesses are lower-cased as trs_to_dict does.'
+        " Round 12: the function that applies the unpacker is found by what it does; length pre-tests are compared with the shortest member of the pattern's language; the cache-purity rule of C15 is armed here too."),
     'families': ['RX-ANCHOR', 'RX-LANG', 'RX-DEADALT', 'DEFUSE', 'SIB', 'FORWARD', 'DEADPARAM', 'SIB-DEFAULTS'],
 }
 
@@ -90,7 +91,7 @@ def check(ctx):
               'TBL', 'error and undefined placeholders are distinct and not valid components',
               detail_bad="placeholders collide", key="TBL|MasterConfig|distinct")
 
-    trs_to_dict = ctx.repo.func('TRS.trs_to_dict')
+    trs_to_dict = unpack_func(ctx)
     construct = ctx.repo.func('TRS.construct_trs')
     ctx.attempt(anchored_calls, trs_to_dict, min_calls=1)
     ctx.attempt(anchored_calls, construct, min_calls=3)
@@ -160,6 +161,9 @@ def check(ctx):
     ctx.attempt(_escape)
     ctx.attempt(common.cross_component_compare, [f for f in ctx.repo.funcs.values() if f.module.name.endswith(('trs.trs', 'tract.tract'))])
     ctx.attempt(validation_on_every_path)
+    ctx.attempt(length_pretests)
+    from .c15 import _cache_purity        # strictness: a near-miss string must not be served a cached valid break-down
+    ctx.attempt(_cache_purity)
     ctx.attempt(common.test_then_shrink, [f for f in ctx.repo.funcs.values() if f.module.name.endswith(('trs.trs', 'unpack.unpackers', 'config.config'))])
     ctx.attempt(common.embedded_case_consistency, modules=('trs.trs',))
     ctx.attempt(common.clause_purity, [f for f in ctx.repo.funcs.values() if f.module.name.endswith(('trs.trs',))])
@@ -383,7 +387,7 @@ def _empty_means_undefined(ctx):
     td = ctx.repo.func('TRS.trs_to_dict')
     setter = [st for st in ci.node.body if isinstance(st, ast.FunctionDef) and st.name == 'trs'
               and any('setter' in norm(d) for d in st.decorator_list)]
-    in_td = maps_empty(td.node)
+    in_td = maps_empty(td.node) or maps_empty(unpack_func(ctx).node)      # ... or the helper that holds the break-down
     in_setter = bool(setter) and maps_empty(setter[0])
     ctx.tri(in_td, not in_td and not in_setter, 'DEFUSE',
             "trs_to_dict maps '' / None to the undefined TRS (so does every route that ends there)",
@@ -540,11 +544,15 @@ def lowered_before_unpack(ctx, rule='DEFUSE'):
     standard string itself), so the subject must be lower-cased before it is
     matched."""
     import re as _re
-    fi = ctx.repo.func('TRS.trs_to_dict')
+    fi = unpack_func(ctx)
     rv = unpacker(ctx)
     construct = 'TRS.trs_to_dict lower-cases the string before the case-insensitive unpacker sees it'
     calls = [c for c in walk_local(fi.node) if isinstance(c, ast.Call) and isinstance(c.func, ast.Attribute)
              and c.func.attr in ('fullmatch', 'match', 'search') and 'UNPACKER' in norm(c.func.value).upper() and c.args]
+    # the application whose match object is kept (its groups become the parts); a consistency check that
+    # only asks `... is None` captures nothing
+    kept = [c for c in calls if isinstance(getattr(c, '_parent', None), (ast.Assign, ast.NamedExpr, ast.AnnAssign))]
+    calls = kept or calls
     if not calls:
         ctx.undecided(rule, construct, 'unpacker call not found')
         return
@@ -705,7 +713,7 @@ def unpacker_members(ctx, rule_pos='RX-LANG'):
     ERR_TWP, ERR_RGE, ERR_SEC = mc('_ERR_TWP'), mc('_ERR_RGE'), mc('_ERR_SEC')
     UND_TWP, UND_RGE, UND_SEC = mc('_UNDEF_TWP'), mc('_UNDEF_RGE'), mc('_UNDEF_SEC')
     L = common.lang(ctx, rv)
-    trs_to_dict = ctx.repo.func('TRS.trs_to_dict')
+    trs_to_dict = unpack_func(ctx)
     lowered = any(c_.split('.')[-1] == 'lower' for c_ in flow.prov_calls(_subject_prov(ctx, trs_to_dict)))
     conv = (lambda s: s.lower()) if lowered else (lambda s: s)
     for s in ('154n97w14', '154n' + ERR_RGE + '14', ERR_TWP + '97w14', '154n97w' + ERR_SEC,
@@ -714,3 +722,58 @@ def unpacker_members(ctx, rule_pos='RX-LANG'):
                   detail_bad=f"{s!r} reaches the unpacker as {conv(s)!r} and is not matched as a whole: the string collapses to the "
                              f"all-error TRS, so a tract with ONE bad component is reported (filter_errors, group_by) as bad in all three",
                   key=f"{rule_pos}|unpacker|member|{s}")
+
+
+def unpack_func(ctx):
+    """The TRS function that applies the unpacker regex to the string: trs_to_dict itself, or the
+    (single) helper of the class the break-down was moved into (`TRS._unpack`)."""
+    def find():
+        td = ctx.repo.func('TRS.trs_to_dict')
+
+        def applies(fn):
+            return any(isinstance(c, ast.Call) and isinstance(c.func, ast.Attribute) and c.func.attr in ('search', 'match', 'fullmatch')
+                       and c.args and 'UNPACKER' in norm(c.func.value).upper() for c in ast.walk(fn))
+        if applies(td.node):
+            return td
+        ci = ctx.repo.cls('trs.trs:TRS')
+        hits = [m for m in ci.methods.values() if applies(m.node)]
+        if len(hits) == 1:
+            ctx.repo.moved_anchors['TRS.trs_to_dict (unpacker application)'] = hits[0].fullname
+            return hits[0]
+        return td
+    return ctx.cache('trs-unpack-func', find)
+
+
+def length_pretests(ctx, rule='RX-LANG'):
+    """A length test in front of the unpacker (`if len(trs) < 6: return <error>`)
+    is sound only if nothing the pattern matches as a whole is that short.
+    The minimum length of the pattern's language is read off its parse tree
+    (sections are optional: '7s9e' has four characters)."""
+    fi = unpack_func(ctx)
+    rv = unpacker(ctx)
+    lo, _hi = rx._minmax(rx.parse(rv.pattern, rv.flags))
+    calls = [c for c in walk_local(fi.node) if isinstance(c, ast.Call) and isinstance(c.func, ast.Attribute)
+             and c.func.attr in ('fullmatch', 'match', 'search') and 'UNPACKER' in norm(c.func.value).upper() and c.args]
+    if not calls:
+        return 0
+    first = min(c.lineno for c in calls)
+    n = 0
+    for t in walk_local(fi.node):
+        if not (isinstance(t, ast.If) and t.lineno < first and any(isinstance(x, ast.Return) for x in t.body)):
+            continue
+        for cmp_ in ast.walk(t.test):
+            if isinstance(cmp_, ast.Compare) and len(cmp_.ops) == 1 and isinstance(cmp_.left, ast.Call) and dotted(cmp_.left.func) == 'len' \
+                    and isinstance(cmp_.comparators[0], ast.Constant) and isinstance(cmp_.comparators[0].value, int):
+                k = cmp_.comparators[0].value
+                op = cmp_.ops[0]
+                rejected_max = k - 1 if isinstance(op, ast.Lt) else k if isinstance(op, ast.LtE) else None
+                if rejected_max is None:
+                    continue
+                n += 1
+                ctx.check(rejected_max < lo, rule, f"{fi.qualname}: `{norm(cmp_)}` rejects nothing the unpacker matches",
+                          f"shortest member has {lo} characters",
+                          f"`{norm(t.test)[:50]}` returns the error break-down for strings of up to {rejected_max} characters, but the "
+                          f"unpacker matches strings as short as {lo} (a bare Twp/Rge such as '7s9e' - the section is optional): "
+                          f"TRS('7s9e') / pretty_desc of a low-numbered township come out as errors",
+                          key=f"{rule}|{fi.qualname}|length-pretest|{norm(cmp_)[:30]}", where=common.loc(fi, t))
+    return n
